@@ -24,39 +24,39 @@ let unf s = if String.length s > 0 && s.[0] = '~' then String.sub s 1 (String.le
 
 (* ------------------------------------------------------------------ gcd *)
 let fuel_lehmer = nat_of 200000
-let both_large a b = bits a > 128 && bits b > 128
+let both_large ?(wb = 64) a b = bits a > 2 * wb && bits b > 2 * wb
 let panic_text = function Panic _ -> "panic-in-model" | Err _ -> "err" | OutOfFuel -> "outoffuel" | Ok _ -> ""
 (* value-level as-is model of gcd_large (Lehmer loop) for two operands of more than two words *)
-let lehmer_gcd_text a b =
-  match lehmer_gcd_asis fuel_lehmer (zi 64) (Zar.abs a) (Zar.abs b) with
+let lehmer_gcd_text ?(wb = 64) a b =
+  match lehmer_gcd_asis fuel_lehmer (zi wb) (Zar.abs a) (Zar.abs b) with
   | Ok g -> "ok " ^ hx g
   | r -> panic_text r
 (* gcd_ext_large + the sign handling of impl_ibig_gcd_ext *)
-let lehmer_gcd_ext_text a b =
-  match lehmer_gcd_ext_asis fuel_lehmer (zi 64) (Zar.abs a) (Zar.abs b) with
+let lehmer_gcd_ext_text ?(wb = 64) a b =
+  match lehmer_gcd_ext_asis fuel_lehmer (zi wb) (Zar.abs a) (Zar.abs b) with
   | Ok ((g, s), t) ->
       let sg v x = if Zar.sign v < 0 then Zar.neg x else x in
       "ok " ^ hx g ^ " " ^ hx (sg a s) ^ " " ^ hx (sg b t)
   | r -> panic_text r
 
-let judge_gcd ?(asis = "") a b got =
-  let asis = if asis = "" && both_large a b then lehmer_gcd_text a b else asis in
+let judge_gcd ?(asis = "") ?(wb = 64) a b got =
+  let asis = if asis = "" && both_large ~wb a b then lehmer_gcd_text ~wb a b else asis in
   let fid = if asis = "" then "" else " " ^ same asis got in
   match gcd_spec a b with
   | Panic _ -> expect ~nt:false ~extra:fid ("panic " ^ gcd00) got
   | Ok g ->
-      let cls = Printf.sprintf "cls=gcd-%dx%d" (min 4 ((bits a + 63) / 64)) (min 4 ((bits b + 63) / 64)) in
+      let cls = Printf.sprintf "cls=gcd%s-%dx%d" (if wb = 64 then "" else "-w32") (min 4 ((bits a + wb - 1) / wb)) (min 4 ((bits b + wb - 1) / wb)) in
       expect ~extra:(cls ^ fid) ("ok " ^ hx g) got
   | _ -> fail "spec"
 
-let judge_gcd_ext ?(asis = "") a b got =
-  let asis = if asis = "" && both_large a b then lehmer_gcd_ext_text a b else asis in
+let judge_gcd_ext ?(asis = "") ?(wb = 64) a b got =
+  let asis = if asis = "" && both_large ~wb a b then lehmer_gcd_ext_text ~wb a b else asis in
   let fid = if asis = "" then "" else " " ^ same asis got in
   match gcd_spec a b with
   | Panic _ -> expect ~nt:false ~extra:fid ("panic " ^ gcd00) got
   | Ok g -> (
-      let wa = (bits a + 63) / 64 and wb = (bits b + 63) / 64 in
-      let cls = Printf.sprintf "cls=gcdext-%dx%d" (min 4 wa) (min 4 wb) ^ fid in
+      let wa = (bits a + wb - 1) / wb and wb' = (bits b + wb - 1) / wb in
+      let cls = Printf.sprintf "cls=gcdext%s-%dx%d" (if wb = 64 then "" else "-w32") (min 4 wa) (min 4 wb') ^ fid in
       match got with
       | [ "ok"; g'; s; t ] ->
           let g' = z g' and s = z s and t = z t in
@@ -205,43 +205,142 @@ let judge_remove x f got =
 
 (* ------------------------------------------------------------------ Karatsuba square root kernel (hook) *)
 let w64 = zi 64
-let judge_ksqrt n a got =
+let judge_ksqrt ?(wb = 64) n a got =
   let ni = Zar.to_int n in
-  let m = Zar.pow (zi 2) (64 * ni) in
+  let m = Zar.pow (zi 2) (wb * ni) in
   let s = Zar.sqrt a in
   let r = Zar.sub a (Zar.mul s s) in
   let want = Printf.sprintf "ok %s %s %s" (hx s) (hx (Zar.rem r m)) (hx (Zar.div r m)) in
-  let asis = res_text (fun ((s, rlo), c) -> hx s ^ " " ^ hx rlo ^ " " ^ (if c then "1" else "0")) (ksqrt w64 (ksqrt_fuel n) n a) in
+  let asis = res_text (fun ((s, rlo), c) -> hx s ^ " " ^ hx rlo ^ " " ^ (if c then "1" else "0")) (ksqrt (zi wb) (ksqrt_fuel n) n a) in
   let odd = if ni land 1 = 1 then "odd" else "even" in
   (* which branches the top level of the recursion takes (from the mathematics of the algorithm) *)
   let path =
     if ni <= 2 then "base" else
     let split = ni / 2 in
-    let l = Zar.pow (zi 2) (64 * split) in
-    let hi = Zar.shift_right a (128 * split) in
+    let l = Zar.pow (zi 2) (wb * split) in
+    let hi = Zar.shift_right a (2 * wb * split) in
     let s1 = Zar.sqrt hi in
     let r1 = Zar.sub hi (Zar.mul s1 s1) in
-    let b1 = Zar.rem (Zar.shift_right a (64 * split)) l and b0 = Zar.rem a l in
+    let b1 = Zar.rem (Zar.shift_right a (wb * split)) l and b0 = Zar.rem a l in
     let d = Zar.add (Zar.mul r1 l) b1 in
     let q = Zar.div d (Zar.mul (zi 2) s1) and u = Zar.rem d (Zar.mul (zi 2) s1) in
     let r = Zar.sub (Zar.add (Zar.mul u l) b0) (Zar.mul q q) in
-    (if Zar.geq r1 (Zar.pow (zi 2) (64 * (ni - split))) then "T" else "t") ^ (if Zar.equal q l then "Q" else "q")
+    (if Zar.geq r1 (Zar.pow (zi 2) (wb * (ni - split))) then "T" else "t") ^ (if Zar.equal q l then "Q" else "q")
     ^ (if Zar.sign r < 0 then "C" else "c") ^ (if Zar.geq u s1 then "U" else "u") in
-  expect ~extra:(Printf.sprintf "cls=ksqrt-%s-n%d path=ksqrt-%s " odd (min 9 ni) path ^ same asis got) want got
+  expect ~extra:(Printf.sprintf "cls=ksqrt%s-%s-n%d path=ksqrt-%s " (if wb = 64 then "" else "-w32") odd (min 9 ni) path ^ same asis got) want got
+
+
+(* ------------------------------------------------------------------ Lehmer kernels (hooks), word level *)
+let mdl300 = zi 300
+let wordsz wb = Zar.pow (zi 2) wb
+let words_of wb n v = to_words (wordsz wb) (nat_of n) v
+let nwords wb v = (bits v + wb - 1) / wb
+let hxl l = String.concat " " (List.map hx l)
+(* fidelity of a model result that may be a panic: the model does not predict the panic message *)
+let same_p asis_res text got =
+  "asis=" ^ (match asis_res with
+    | Ok v -> if split_ws ("ok " ^ text v) = got then "same" else "diff"
+    | Panic _ -> (match got with "panic" :: _ -> "same" | _ -> "diff")
+    | _ -> "diff")
+let ginv_ok wb a b c d =
+  let l = coeff_limit (zi wb) in
+  let inr v = Zar.sign v >= 0 && Zar.leq v l in
+  inr a && inr b && inr c && inr d && Zar.equal (Zar.sub (Zar.mul a d) (Zar.mul b c)) Zar.one
+
+(* lehmer_guess / lehmer_guess_dword: the matrix is unimodular with entries <= COEFF_LIMIT and b <= a*xb - b*yb,
+   c <= d*yb - c*xb (hence a*x - b*y >= 0, d*y - c*x >= 0 for all x, y with these leading bits) *)
+let judge_lguess wb dword xb yb got =
+  let m = if dword then lehmer_guess_dword (zi wb) xb yb else lehmer_guess (zi wb) xb yb in
+  let fid = same_p m (fun (((a, b), c), d) -> hxl [ a; b; c; d ]) got in
+  let cls = Printf.sprintf "cls=lguess-%s-w%d " (if dword then "dword" else "word") wb in
+  if Zar.lt xb yb then (match got with "panic" :: _ -> pass ~nt:false ~extra:(cls ^ fid) () | _ -> fail "panic (debug_assert xbar >= ybar)")
+  else
+    match got with
+    | [ "ok"; a; b; c; d ] ->
+        let a = z a and b = z b and c = z c and d = z d in
+        let xb' = Zar.sub (Zar.mul a xb) (Zar.mul b yb) and yb' = Zar.sub (Zar.mul d yb) (Zar.mul c xb) in
+        let steps = if Zar.sign b = 0 then "failed" else "step" in
+        cert_verdict ~extra:(cls ^ "path=" ^ steps ^ " " ^ fid) (ginv_ok wb a b c d && Zar.leq b xb' && Zar.leq c yb') "ok a b c d unimodular, b <= a*xb-b*yb, c <= d*yb-c*xb"
+    | _ -> fail "ok a b c d"
+
+let judge_ltop wb dword x y got =
+  let k = bits x - (if dword then 2 * wb else wb) in
+  let want = Printf.sprintf "ok %s %s" (hx (Zar.shift_right x k)) (hx (Zar.shift_right y k)) in
+  let (mx, my) = if dword then highest_dword_normalized (zi wb) x y else highest_word_normalized (zi wb) x y in
+  let fid = same ("ok " ^ hxl [ mx; my ]) got in
+  expect ~extra:(Printf.sprintf "cls=ltop-%s-w%d-d%d " (if dword then "dword" else "word") wb (min 3 (nwords wb x - nwords wb y)) ^ fid) want got
+
+(* lehmer_step on raw slices: inside the contract (coefficients <= COEFF_LIMIT, lengths differ by at most one,
+   both results non-negative, the new x fits the words of y) the slices hold a*x - b*y and d*y - c*x *)
+let judge_lstep wb xlen x ylen y a b c d got =
+  let m = lstep_words (zi wb) a b c d (words_of wb xlen x) (words_of wb ylen y) in
+  let w = wordsz wb in
+  let fid = same_p m (fun (xs, ys) -> hxl [ wval w xs; wval w ys ]) got in
+  let x' = Zar.sub (Zar.mul a x) (Zar.mul b y) and y' = Zar.sub (Zar.mul d y) (Zar.mul c x) in
+  let inside = ginv_ok wb a b c d && (xlen = ylen || xlen = ylen + 1) && Zar.sign x' >= 0 && Zar.sign y' >= 0 && bits x' <= wb * ylen in
+  let cls = Printf.sprintf "cls=lstep-w%d-%s " wb (if xlen = ylen then "eq" else if xlen = ylen + 1 then "longer" else "badlen") in
+  if inside then expect ~extra:(cls ^ "path=contract " ^ fid) ("ok " ^ hxl [ x'; y' ]) got
+  else pass ~nt:false ~extra:(cls ^ "path=outside " ^ fid) ()
+
+(* the Lehmer branch of one iteration: guess + step on the trimmed slices *)
+let judge_liter wb x y got =
+  let m = lehmer_iter_words mdl300 (zi wb) (words_of wb (nwords wb x) x) (words_of wb (nwords wb y) y) in
+  let w = wordsz wb in
+  let text = function
+    | None -> "euclid"
+    | Some (((((a, b), c), d), xs), ys) -> hxl [ a; b; c; d; wval w xs; wval w ys ] in
+  let fid = same_p m text got in
+  let cls = Printf.sprintf "cls=liter-w%d-%s-d%d " wb (if nwords wb x < 300 then "word" else "dword") (min 3 (nwords wb x - nwords wb y)) in
+  match got with
+  | [ "ok"; "euclid" ] -> pass ~nt:false ~extra:(cls ^ "path=euclid " ^ fid) ()
+  | [ "ok"; a; b; c; d; x'; y' ] ->
+      let a = z a and b = z b and c = z c and d = z d and x' = z x' and y' = z y' in
+      let ok = ginv_ok wb a b c d && Zar.equal x' (Zar.sub (Zar.mul a x) (Zar.mul b y)) && Zar.equal y' (Zar.sub (Zar.mul d y) (Zar.mul c x))
+               && Zar.sign x' >= 0 && Zar.sign y' >= 0 && Zar.lt x' y in
+      cert_verdict ~extra:(cls ^ "path=lehmer " ^ fid) ok "ok a b c d x' y' with x' = a*x-b*y >= 0, y' = d*y-c*x >= 0, ad-bc = 1"
+  | _ -> fail "ok euclid | ok a b c d x' y'"
+
+(* lehmer_ext_step: the first len words and the carries hold a*x + b*y, c*x + d*y *)
+let judge_lext wb len xlen x ylen y a b c d got =
+  let m = lext_words (zi wb) a b c d (zi len) (words_of wb xlen x) (words_of wb ylen y) in
+  let w = wordsz wb in
+  let fid = same_p m (fun (((xs, ys), cx), cy) -> hxl [ wval w xs; wval w ys; cx; cy ]) got in
+  let l = coeff_limit (zi wb) in
+  let inside = List.for_all (fun v -> Zar.sign v >= 0 && Zar.leq v l) [ a; b; c; d ] && len <= xlen && len <= ylen in
+  let cls = Printf.sprintf "cls=lext-w%d " wb in
+  if inside then begin
+    let q = Zar.pow (zi 2) (wb * len) in
+    let xl = Zar.rem x q and yl = Zar.rem y q in
+    let t0 = Zar.add (Zar.mul a xl) (Zar.mul b yl) and t1 = Zar.add (Zar.mul c xl) (Zar.mul d yl) in
+    let x' = Zar.add (Zar.sub x xl) (Zar.rem t0 q) and y' = Zar.add (Zar.sub y yl) (Zar.rem t1 q) in
+    expect ~extra:(cls ^ "path=contract " ^ fid) ("ok " ^ hxl [ x'; y'; Zar.div t0 q; Zar.div t1 q ]) got
+  end else pass ~nt:false ~extra:(cls ^ "path=outside " ^ fid) ()
+
+(* the hook-level Lehmer ops exist to tie the word-level / guess models to the code: an answer that differs from the
+   extracted as-is model is a failure even where the specification accepts it (e.g. another valid cosequence matrix) *)
+let contains s sub =
+  let n = String.length s and m = String.length sub in
+  let rec go i = i + m <= n && (String.sub s i m = sub || go (i + 1)) in
+  go 0
+let strict_model (v : verdict) = if v.v = "pass" && contains v.extra "asis=diff" then fail "the-answer-of-the-extracted-as-is-model" else v
 
 let fuel_root = nat_of 64
 let add_extra e (v : verdict) = if v.v = "pass" then { v with extra = v.extra ^ e } else v
 let ty_bits t = match t with "u8" | "i8" -> 8 | "u16" | "i16" -> 16 | "u32" | "i32" -> 32 | "u128" | "i128" -> 128 | _ -> 64
 
 let judge op args got =
+  (* the force_bits="32" build marks the answers of its word-level ops *)
+  let wb = if List.mem "w32" got then 32 else 64 in
+  let got = List.filter (fun t -> t <> "w32") got in
+  let ni i = Zar.to_int (usz (List.nth args i)) in
   let a i = z (List.nth args i) in
   let n i = usz (List.nth args i) in
   let s i = List.nth args i in
   let v =
     match op with
-    | "gcd" | "ugcd" | "gcd_ui" | "gcd_iu" -> judge_gcd (a 1) (a 2) got
+    | "gcd" | "ugcd" | "gcd_ui" | "gcd_iu" -> judge_gcd ~wb (a 1) (a 2) got
     | "pgcd" -> judge_gcd ~asis:(res_text hx (prim_gcd_asis fuel_small (zi (ty_bits (s 0))) (a 1) (a 2))) (a 1) (a 2) got
-    | "gcd_ext" | "ugcd_ext" | "gcd_ext_ui" | "gcd_ext_iu" -> judge_gcd_ext (a 1) (a 2) got
+    | "gcd_ext" | "ugcd_ext" | "gcd_ext_ui" | "gcd_ext_iu" -> judge_gcd_ext ~wb (a 1) (a 2) got
     | "pgcd_ext" ->
         let asis = res_text (fun ((g, cs), ct) -> hx g ^ " " ^ hx cs ^ " " ^ hx ct) (prim_gcd_ext_asis fuel_small (a 1) (a 2)) in
         judge_gcd_ext ~asis (a 1) (a 2) got
@@ -251,11 +350,11 @@ let judge op args got =
         expect ~extra:(Printf.sprintf "cls=psqrt-%s" (s 0) ^ fid) ("ok " ^ hx (Zar.sqrt (a 1))) got
     | "usqrt_rem" -> let (r, e) = sqrt_rem_spec (a 0) in
         (* multi-word values: the pre-/post-shift model around the kernel contract *)
-        let fid = if bits (a 0) > 128 then (
-            let (r', e') = sqrt_rem_large_gen true (zi 64) (a 0) in
-            let full = res_text (fun (r, e) -> hx r ^ " " ^ hx e) (sqrt_rem_large_asis w64 (a 0)) in
+        let fid = if bits (a 0) > 2 * wb then (
+            let (r', e') = sqrt_rem_large_gen true (zi wb) (a 0) in
+            let full = res_text (fun (r, e) -> hx r ^ " " ^ hx e) (sqrt_rem_large_asis (zi wb) (a 0)) in
             " " ^ (if split_ws full = got then same ("ok " ^ hx r' ^ " " ^ hx e') got else "asis=diff")) else "" in
-        expect ~extra:(Printf.sprintf "cls=sqrtrem-w%d" (min 9 ((bits (a 0) + 63) / 64)) ^ fid) ("ok " ^ hx r ^ " " ^ hx e) got
+        expect ~extra:(Printf.sprintf "cls=sqrtrem%s-w%d" (if wb = 64 then "" else "-w32") (min 9 ((bits (a 0) + wb - 1) / wb)) ^ fid) ("ok " ^ hx r ^ " " ^ hx e) got
     | "psqrt_rem" -> let (r, e) = sqrt_rem_spec (a 1) in
         let fid = " " ^ same (res_text (fun (r, e) -> hx r ^ " " ^ hx e) (prim_sqrt_rem_asis fuel_root (zi (ty_bits (s 0))) (a 1))) got in
         expect ~extra:(Printf.sprintf "cls=psqrtrem-%s" (s 0) ^ fid) ("ok " ^ hx r ^ " " ^ hx e) got
@@ -290,7 +389,14 @@ let judge op args got =
           else judge_log2_value ~cls:("fbig" ^ Zar.to_string base) sg bp got
     | "rlog2b" | "relog2b" -> judge_log2_value ~cls:"ratio" (a 0) (a 1) got
     | "remove" -> judge_remove (a 0) (a 1) got
-    | "ksqrt" -> judge_ksqrt (n 0) (a 1) got
+    | "ksqrt" -> judge_ksqrt ~wb (n 0) (a 1) got
+    | "lguess" -> strict_model (judge_lguess wb false (a 0) (a 1) got)
+    | "lguessd" -> strict_model (judge_lguess wb true (a 0) (a 1) got)
+    | "ltop" -> strict_model (judge_ltop wb false (a 0) (a 1) got)
+    | "ltopd" -> strict_model (judge_ltop wb true (a 0) (a 1) got)
+    | "lstep" -> strict_model (judge_lstep wb (ni 0) (a 1) (ni 2) (a 3) (a 4) (a 5) (a 6) (a 7) got)
+    | "liter" -> strict_model (judge_liter wb (a 0) (a 1) got)
+    | "lext" -> strict_model (judge_lext wb (ni 0) (ni 1) (a 2) (ni 3) (a 4) (a 5) (a 6) (a 7) (a 8) got)
     | _ -> fail ("unknown-op-" ^ op)
   in
   v
